@@ -47,7 +47,8 @@ def label (r : String) (i : Nat) : String := r ++ toString i
   * an error with a pointer receiver (`errors.New(msg)`): `Repr` dereferences the pointer and prints the
     struct, `{msg}`; `%v` calls `Error()`: `msg`.
 Kinds: s string, i int, j int64, u uint64, o bool, e error, t Stringer (value), p Stringer (pointer),
-f float64, g float32, b []byte, z nil, x errors.New. -/
+f float64, g float32, b []byte, z nil, x errors.New, q error+Stringer; a/h/w int8/16/32, n/c/k/m uint/8/16/32,
+d named int, r *int, y nil pointer (see Repr.lean). -/
 
 def stripLeadingZeros (l : List Char) : List Char := l.dropWhile (· == '0')
 
@@ -82,6 +83,7 @@ def verbV (n : Node) : String :=
   else if n.kind = "b" then verbBytes n.repr
   else if n.kind = "z" then "<nil>"
   else if n.kind = "x" then String.ofList ((n.repr.toList.drop 1).dropLast)
+  else if n.kind = "q" then "E!" ++ n.repr          -- error AND Stringer: `%v` prefers Error(), `Repr` String()
   else n.repr
 
 /-- `fmt.Sprintf("%d:%v", prime, v)` applied to the `%v` text of the value -/
